@@ -180,13 +180,15 @@ def line_number_parser(ck, F):
     if b is None:
         return
     nones = [(bb, sp) for bb, i, pl, rv, sp in aggregates(b, "core::option::Option", "None") if pl["local"] == 0 and not pl["proj"]]
+    # `x?` on an Option / `.ok()?` returns None through FromResidual
+    nones += [(c.bb, c.span) for c in b.calls() if c.callee.endswith("from_residual") and c.dest["local"] == 0 and not c.dest["proj"]]
     ck.floor("C04.None returns of parse_line_number", len(nones), 2)
     bad = []
     for (bb, sp) in nones:
         for (sw, subj, names) in controlling_switches(b, bb):
             txt = show(subj)
             ok = ("is_ascii_digit" in txt or "is_ascii_whitespace" in txt or "parse(" in txt or "parse" in txt and "Result" in txt or
-                  (names and set(names.values()) <= {"None", "Some", "Ok", "Err"}))
+                  (names and set(names.values()) <= {"None", "Some", "Ok", "Err", "Continue", "Break"}))
             if not ok:
                 bad.append(txt[:100])
     ck.require(not bad, "C04:PARSE:none-only-for-stated-reasons", "line-number prefix",
@@ -301,8 +303,12 @@ def paired_update(ck, F, E, setf):
 
 def list_shape(ck, F, lb):
     """line number, blank, tokens joined by single blanks, newline."""
-    joins = [c for c in lb.calls() if c.callee.endswith("::join")]
-    ok_join = any(any(expr_const_str(lb.expr(a)) == " " for a in c.args) for c in joins)
+    from lib import with_closures
+    ok_join = False
+    for bd in with_closures(F, lb):
+        for c in bd.calls():
+            if c.callee.endswith("::join") and any(expr_const_str(bd.expr(a)) == " " for a in c.args):
+                ok_join = True
     ck.require(ok_join, "C04:LISTSHAPE:join-blank", "listing shape", "tokens are joined with a single blank",
                "list() no longer joins token spellings with a single blank", lb.span)
     pieces = []
